@@ -225,6 +225,7 @@ World ==
      [u |-> "bob", c |-> "v1col", v1ok |-> TRUE],
      [u |-> "dave", c |-> "novec", v1ok |-> FALSE],
      [u |-> "dave", c |-> "flatvec", v1ok |-> FALSE],
+     [u |-> "dave", c |-> "stray", v1ok |-> FALSE],
      [u |-> "tim", c |-> "tiny", v1ok |-> FALSE] >>
 V1Ok(u, c) == \E i \in 1..Len(World) : World[i].u = u /\ World[i].c = c /\ World[i].v1ok
 UserV1Ok(u) == \A i \in 1..Len(World) : World[i].u = u => World[i].v1ok
@@ -444,6 +445,8 @@ Bases ==
      B("v2.insert", "kitchen", "alice", "kitchen", "accept", "change", TRUE, TRUE, V2InsertFields),
      B("v2.insert", "edge", "alice", "edge", "accept", "change", TRUE, FALSE, EdgeInsertFields),
      B("v2.insert", "quant", "alice", "quant", "accept", "change", TRUE, FALSE, QuantInsertFields),
+     \* "emb" is a vectorFlat of size 2 whose schema entry also carries a stray vectorVamana block of size 4
+     B("v2.insert", "stray", "dave", "stray", "accept", "change", TRUE, FALSE, << FVec("points/0/emb", "n", 2, 4096) >>),
      B("v2.insert", "quotafull", "tim", "tiny", "reject", "change", TRUE, FALSE, <<>>),
      B("v2.insert", "toolarge", "tim", "tiny", "reject", "change", TRUE, FALSE, <<>>),
      B("v2.update", "kitchen", "alice", "kitchen", "accept", "change", TRUE, TRUE, V2UpdateFields),
